@@ -245,6 +245,9 @@ namespace sqf::runtime
         }
         std::shared_ptr<sqf::runtime::value_scope> default_value_scope() { return get_value_scope(m_default_scope_key); }
         void default_value_scope(std::string key) { m_default_scope_key = key; }
+        // The namespace code started from the currently executing scope runs in: the one selected
+        // by the innermost enclosing with-do (the default namespace if nothing is executing).
+        std::shared_ptr<sqf::runtime::value_scope> current_value_scope();
 
 #pragma endregion
 #pragma region Code Evaluation
